@@ -282,19 +282,20 @@ def inject_symbols(job, tensors, vpa_mode, scale=None, inst=None):
     return sym
 
 
-def symbolic_run(arch_kind, wl_kind, sk, arch_opts=None, vpa_mode=None, scale=None, inst=None, wl_opts=None):
+def symbolic_run(arch_kind, wl_kind, sk, arch_opts=None, vpa_mode=None, scale=None, inst=None, wl_opts=None, inject=True, bounds=None):
     """Runs the public evaluate_mapping; the wrapper injects symbols, calls the REAL run_model,
     captures its outputs and aborts the (pandas) rest of evaluate_mapping."""
     import accelforge.model.run_model as rm
     from accelforge.util.parallel import set_n_parallel_jobs
     set_n_parallel_jobs(1)
     ename, tensors, outs, rvs = WORKLOADS[wl_kind]
-    spec = build_spec(arch_kind, wl_kind, sk, arch_opts, wl_opts=wl_opts)
+    spec = build_spec(arch_kind, wl_kind, sk, arch_opts, wl_opts=wl_opts, bounds=bounds)
     real = rm.run_model
     cap = {}
 
     def wrapper(job, add_reservations=True):
-        cap["sym"] = inject_symbols(job, list(tensors), vpa_mode or {}, scale, inst)
+        # inject=False: only the tile shapes are symbols (what the mapper's tile-shape exploration sees)
+        cap["sym"] = inject_symbols(job, list(tensors), vpa_mode or {}, scale, inst) if inject else {}
         cap["out"] = real(job, add_reservations)
         cap["nodes"] = [n.compact_str() for n in job.mapping.nodes]
         raise _Abort()
